@@ -13,8 +13,8 @@ package tlb
 //   - composite types of messages.go, account.go, transactions.go, models.go, stack.go, primitives.go combinators and
 //     hashmaps over small key/value types: a reflective generator driven by choice coverage: every constructor of every
 //     union, present/absent Maybe (incl. `maybe` pointer tags), both sides of Either / EitherRef, 0/1/2-entry hashmaps,
-//     each leaf boundary value, nested to depth 7; generation for one root type stops after 25 consecutive values that
-//     add no new (successfully encoded) choice, at most 250 (quick) / 2500 (thorough) values per root type.
+//     each leaf boundary value, nested to depth 7; generation for one root type stops after 30 (quick) / 120 (thorough)
+//     consecutive values that add no new (successfully encoded) choice, at most 300 / 2500 values per root type.
 //   - big-int cell primitives Write/ReadBigUint, Write/ReadBigInt: widths 1..257 x bit offsets 0..7 x boundary values.
 //   - VmStack list convention with 0..4 entries of 7 kinds (hand-built expected cells), VmStkTuple decode side 0..4.
 //
@@ -213,7 +213,7 @@ func TestVerifStandin_C03_RoundTrip(t *testing.T) {
 	}
 
 	// 2. composite types: coverage-driven reflective generation
-	maxPerType, patience := 250, 25
+	maxPerType, patience := 300, 30
 	if thorough {
 		maxPerType, patience = 2500, 120
 	}
